@@ -1,4 +1,4 @@
-\* C20: all 3-call histories over four uncertainty calls (object-identity keyed table); dumped, every path is replayed
+\* C20: all 3-call histories over three uncertainty calls (object-identity keyed table); dumped, every path is replayed
 CONSTANTS
   MaxDepth = 3
   BaseSel = "god"
